@@ -495,7 +495,13 @@ impl util::BitVec
             let span_location = span.span.location().unwrap();
             let char_counter = util::CharCounter::new(&prev_file_chars);
 
-            result.push_str(&format!("{:1$}", contents_str, content_width));
+            // Pad by hand: a formatting width argument
+            // cannot exceed 65535 (e.g. `group:65536`)
+            result.push_str(&contents_str);
+            for _ in contents_str.chars().count()..content_width
+            {
+                result.push(' ');
+            }
             result.push_str(&format!(" ; {}", char_counter.get_excerpt(span_location.0, span_location.1)));
             result.push_str("\n");
 		}
@@ -632,7 +638,12 @@ impl util::BitVec
 
                 contents_str.push(c);
             }
-            result.push_str(&format!("{:1$}\n", contents_str, content_width));
+            result.push_str(&contents_str);
+            for _ in contents_str.chars().count()..content_width
+            {
+                result.push(' ');
+            }
+            result.push_str("\n");
 		}
 		result
 	}
